@@ -374,9 +374,84 @@ fn send_failure_case(per_client: bool, v: rtref::Version, dests: &[usize], bad: 
     Ok(None)
 }
 
+/// The reporter's own loop (`Reporter::processing_loop`, as the stats-reporting thread of the server
+/// runs it) against one worker that hands off a snapshot in each of three publish windows of one
+/// report interval, into a queue of the size the binary gives one worker (2). Each snapshot is handed
+/// off once the previous one has been taken (or after 2.5 s). The reports written to disk must add up
+/// to every recorded event. Returns a description of the disagreement.
+fn reporter_loop_case() -> Result<Option<String>, String> {
+    use std::sync::atomic::AtomicBool;
+    let dir = crate::proc::scratch_dir();
+    let queue = Arc::new(StatsQueue::new(2));
+    let mut rep = Reporter::new(queue.clone(), &Duration::from_secs(8), Some(dir.clone()));
+    let keep = Arc::new(AtomicBool::new(true));
+    let k2 = keep.clone();
+    let h = std::thread::Builder::new().name("stats-reporting".into()).spawn(move || rep.processing_loop(&k2)).map_err(|e| e.to_string())?;
+    let mut worker = PerClientStats::verif_with_limit(1000);
+    let mut recorded = 0u64;
+    std::thread::sleep(Duration::from_millis(300));
+    for w in 0..3u64 {
+        for _ in 0..=w {
+            apply(&mut worker, 1, 0);
+            recorded += 1;
+        }
+        let clients: Vec<ClientStats> = worker.iter().map(|(_, s)| *s).collect();
+        queue.force_push(clients);
+        worker.clear();
+        let t = std::time::Instant::now();
+        while !queue.is_empty() && t.elapsed() < Duration::from_millis(2500) {
+            std::thread::sleep(Duration::from_millis(20));
+        }
+    }
+    // the sum over every report written so far, until it is complete or 14 s have passed
+    let want_ip = addr(0).to_string();
+    let t = std::time::Instant::now();
+    let mut total = 0u64;
+    let mut files = 0;
+    while t.elapsed() < Duration::from_secs(14) {
+        total = 0;
+        files = 0;
+        if let Ok(rd) = std::fs::read_dir(&dir) {
+            for e in rd.flatten() {
+                if !e.file_name().to_string_lossy().ends_with(".csv.zst") {
+                    continue;
+                }
+                let raw = std::fs::read(e.path()).unwrap_or_default();
+                let plain = String::from_utf8_lossy(&zstd::decode_all(&raw[..]).unwrap_or_default()).to_string();
+                let mut lines = plain.lines();
+                let head: Vec<&str> = lines.next().unwrap_or("").split(',').collect();
+                let (ci, ii) = match (head.iter().position(|c| *c == "classic_requests"), head.iter().position(|c| *c == "ip_addr")) {
+                    (Some(a), Some(b)) => (a, b),
+                    _ => continue, // a file still being written
+                };
+                files += 1;
+                for l in lines {
+                    let f: Vec<&str> = l.split(',').collect();
+                    if f.get(ii) == Some(&want_ip.as_str()) {
+                        total += f.get(ci).and_then(|x| x.parse::<u64>().ok()).unwrap_or(0);
+                    }
+                }
+            }
+        }
+        if total >= recorded {
+            break;
+        }
+        std::thread::sleep(Duration::from_millis(200));
+    }
+    keep.store(false, std::sync::atomic::Ordering::Relaxed);
+    let _ = h.join();
+    let _ = std::fs::remove_dir_all(&dir);
+    if total != recorded {
+        return Ok(Some(format!("one worker recorded {} classic requests of one client in 3 publish windows of one report interval (queue of 2, each snapshot handed off after the previous one was taken or 2.5 s later); the {} report file(s) the reporter loop wrote add up to {}", recorded, files, total)));
+    }
+    Ok(None)
+}
+
 pub fn run(ctx: &Ctx) -> Result<(), String> {
     ctx.set_level("model_checking");
     crate::inproc::init();
+    // the reporter's own loop runs in real time (one 8 s report interval): alongside everything else
+    let reporter_loop = std::thread::spawn(reporter_loop_case);
     let transitions = AtomicU64::new(0);
     let evals = AtomicU64::new(0);
     let all_states: Mutex<BTreeSet<(usize, String)>> = Mutex::new(BTreeSet::new());
@@ -662,6 +737,13 @@ pub fn run(ctx: &Ctx) -> Result<(), String> {
         sampled += ops.len() as u64;
     }
 
+    match reporter_loop.join() {
+        Ok(Ok(None)) => {}
+        Ok(Ok(Some(msg))) => ctx.violation("merge-loses-or-invents", "reporter", "processing-loop", json!({"kind":"reporter-loop","message":msg})),
+        Ok(Err(e)) => return Err(e),
+        Err(_) => return Err("reporter loop case panicked".into()),
+    }
+    ctx.cov("reporter_loop_runs", json!(1));
     ctx.cov("states", json!(rec_states));
     ctx.cov("transitions", json!(transitions.load(Relaxed)));
     ctx.cov("traces_validated_against_impl", json!(evals.load(Relaxed) + merge_n.load(Relaxed) + wiring_n.load(Relaxed)));
@@ -674,7 +756,7 @@ pub fn run(ctx: &Ctx) -> Result<(), String> {
     ctx.cov("sampled_evaluations", json!(sampled));
     ctx.cov("exhaustive", json!(true));
     ctx.cov("bound", json!({"recorder_len": len1, "recorder_ops": 25, "limits": [1, 2], "merge_len": len2, "merge_events": 15, "wiring_depth": ctx.tier.pick("4 (aggregated) / 3 (per-client)", "5 / 4")}));
-    ctx.cov("rule", json!(format!("(1) all sequences of length <= {} over 8 recording operations x 3 addresses + clear on the real PerClientStats (limit 1 and 2) and AggregatedStats, with a step oracle after every operation: the observable state (per-address counters, bytes, overflow count) changed by exactly the event's own counter +1 (bytes + argument) OR overflow +1; tracked <= limit; every getter equals the sum over rows; iter() == rows; aggregated totals equal per-client totals while overflow is 0. states = distinct canonical recorder states reached. (2) all sequences of {} events over {{record(w,op,addr) x12, snapshot(w0), snapshot(w1), receive}} (three explorations whose operation triples together hold all 8 recording kinds, each with two plain IPv4 addresses and again with an IPv4 address and its IPv4-mapped IPv6 form ::ffff:a.b.c.d, which are distinct addresses) + final receive through the real iter->force_push->clear hand-off, the real ArrayQueue (capacity 4) and the real Reporter::receive_client_stats, against a model queue that drops the oldest snapshot when full: reporter per-address sums == sums of popped snapshots. (3) C09 event histories extended with the periodic hand-off event on real Servers (aggregated and per-client recorder): recorded valid/classic/ietf/invalid/responses/bytes == datagrams actually sent and received (histories without hand-off; batch_size 1 and 3, and 3 with fault_percentage 50, where deliberately invalid replies differ in length); every hand-off returns even when the undrained queue is full (wedge watchdog), traffic still served. (4) the real Responder driven through its public API: every sequence (length <= 3, thorough 4) of return addresses over {{two receiving sockets, addresses send_to fails for (IPv6 on an IPv4 socket, port 0, broadcast)}} as one batch and then reversed as a second batch, both protocols, both recorders: responses / bytes recorded == datagrams / bytes that arrived, failed send attempts == unsendable addresses, after each batch.", len1, len2)));
+    ctx.cov("rule", json!(format!("(1) all sequences of length <= {} over 8 recording operations x 3 addresses + clear on the real PerClientStats (limit 1 and 2) and AggregatedStats, with a step oracle after every operation: the observable state (per-address counters, bytes, overflow count) changed by exactly the event's own counter +1 (bytes + argument) OR overflow +1; tracked <= limit; every getter equals the sum over rows; iter() == rows; aggregated totals equal per-client totals while overflow is 0. states = distinct canonical recorder states reached. (2) all sequences of {} events over {{record(w,op,addr) x12, snapshot(w0), snapshot(w1), receive}} (three explorations whose operation triples together hold all 8 recording kinds, each with two plain IPv4 addresses and again with an IPv4 address and its IPv4-mapped IPv6 form ::ffff:a.b.c.d, which are distinct addresses) + final receive through the real iter->force_push->clear hand-off, the real ArrayQueue (capacity 4) and the real Reporter::receive_client_stats, against a model queue that drops the oldest snapshot when full: reporter per-address sums == sums of popped snapshots. (2b) Reporter::processing_loop itself, in real time, against one worker handing off in three publish windows of one report interval into a queue of 2: the report files add up to the recorded events. (3) C09 event histories extended with the periodic hand-off event on real Servers (aggregated and per-client recorder): recorded valid/classic/ietf/invalid/responses/bytes == datagrams actually sent and received (histories without hand-off; batch_size 1 and 3, and 3 with fault_percentage 50, where deliberately invalid replies differ in length); every hand-off returns even when the undrained queue is full (wedge watchdog), traffic still served. (4) the real Responder driven through its public API: every sequence (length <= 3, thorough 4) of return addresses over {{two receiving sockets, addresses send_to fails for (IPv6 on an IPv4 socket, port 0, broadcast)}} as one batch and then reversed as a second batch, both protocols, both recorders: responses / bytes recorded == datagrams / bytes that arrived, failed send attempts == unsendable addresses, after each batch.", len1, len2)));
     ctx.sample(json!({"kind":"recorder","limit":1,"names":["classic_req@a0","rfc_resp@a1","clear","health@a1"]}));
     ctx.sample(json!({"kind":"merge","events":["rec:w0:classic_req:a0","snap:w0","rec:w1:classic_req:a0","snap:w1","receive"]}));
     ctx.assume("part 2 reuses one Reporter per chunk of histories (Reporter::new allocates a 5M-entry map); the model is cumulative, so the oracle stays exact");
